@@ -640,6 +640,85 @@ func valueEnd(s string, i int) int {
 	return len(s)
 }
 
+// faulty: every request position x every error kind, singly; sometimes two
+func (g *gen) faulty(i int, seed uint64) *scenario {
+	r := g.r
+	var sc *scenario
+	if r.Chance(1, 3) {
+		sc = g.race(i, seed)
+	} else {
+		sc = g.basic("faults", i, seed)
+		sc.Warmup = r.Chance(2, 3)
+		if sc.Warmup && len(sc.Hook.Children) > 0 {
+			h2 := sc.Hook
+			h2.Children = nil
+			for _, c := range sc.Hook.Children {
+				switch r.Intn(3) {
+				case 0:
+				case 1:
+					c2 := runtime.DeepCopyJSON(c)
+					c2["spec"].(J)["replicas"] = int64(5)
+					h2.Children = append(h2.Children, c2)
+				default:
+					h2.Children = append(h2.Children, c)
+				}
+			}
+			sc.Hook2 = &h2
+		}
+	}
+	sc.Family = "faults"
+	rs := &sc.Rounds[0]
+	rs.Faults = map[string]J{}
+	pos := i % 12 // the driver walks the positions; the kind is random
+	rs.Faults[fmt.Sprint(pos)] = faultKinds[r.Intn(len(faultKinds))]
+	if r.Chance(1, 5) {
+		rs.Faults[fmt.Sprint(r.Intn(12))] = faultKinds[r.Intn(len(faultKinds))]
+	}
+	switch r.Intn(12) {
+	case 0:
+		sc.hookFor().Code, sc.hookFor().RetryAfter = 429, fmt.Sprint(1+r.Intn(50))
+		sc.Features = append(sc.Features, "hook-429")
+	case 1:
+		sc.hookFor().Code = 503
+		sc.Features = append(sc.Features, "hook-5xx")
+	case 2:
+		sc.hookFor().NetErr = true
+		sc.Features = append(sc.Features, "hook-conn-refused")
+	}
+	if r.Chance(1, 4) && len(sc.Ctl.Kids) > 0 {
+		// a child write fails hard and the status write meets a benign race
+		k := sc.Ctl.Kids[r.Intn(len(sc.Ctl.Kids))]
+		verb := []string{"create", "update", "delete"}[r.Intn(3)]
+		rs.Faults = map[string]J{}
+		rs.FaultOn = []faultOn{
+			{Verb: verb, Kind: k.Kind, AfterHook: true, Fault: J{"code": 500, "reason": "InternalError"}},
+			{Verb: []string{"get", "updatestatus"}[r.Intn(2)], Kind: sc.Ctl.ParentKind, AfterHook: true,
+				Fault: []J{{"code": 404, "reason": "NotFound"}, {"code": 409, "reason": "Conflict"}}[r.Intn(2)]},
+		}
+		if rs.FaultOn[1].Verb == "updatestatus" && rs.FaultOn[1].Fault["code"] == 409 {
+			// a conflict is retried: make every attempt conflict
+			for x := 1; x < 4; x++ {
+				f := rs.FaultOn[1]
+				f.Nth = x
+				rs.FaultOn = append(rs.FaultOn, f)
+			}
+		}
+		sc.Features = append(sc.Features, "child-failure+status-race")
+	}
+	sc.Features = append(sc.Features, "fault")
+	for len(sc.Rounds) < 2 {
+		sc.Rounds = append(sc.Rounds, roundSpec{})
+	}
+	return sc
+}
+
+func (sc *scenario) hookFor() *hookProgram {
+	if sc.Hook2 != nil {
+		return sc.Hook2
+	}
+	return &sc.Hook
+}
+
 func generateScenarios(prop string, seed uint64, n int, adv bool) []*scenario {
 	root := vh.NewRng(seed ^ 0xc0de)
 	var out []*scenario
@@ -655,6 +734,8 @@ func generateScenarios(prop string, seed uint64, n int, adv bool) []*scenario {
 			out = append(out, g.lifecycle(i, s))
 		case prop == "C11" && i%4 != 0:
 			out = append(out, g.statusy(i, s))
+		case prop == "C12" && i%6 != 0:
+			out = append(out, g.faulty(i, s))
 		case prop == "C13" && i%8 != 0:
 			out = append(out, g.malformed(i, s))
 		default:
